@@ -30,5 +30,7 @@ Report == LET bad == {t \in 1..NT : TLCGet(t) # Len(Traces[t].ev) + 1} IN
           /\ \A t \in bad : PrintT(ToJson([rejected |-> Traces[t].id, matched |-> TLCGet(t) - 1]))
           /\ PrintT(ToJson([accepted |-> NT - Cardinality(bad), of |-> NT]))
 NoDesigns == {}
+NoRepl == {}
+NoEdits == {}
 G2 == {<<1, 2>>, <<1, 1>>, <<2, 1>>}
 =====================================================================================================
